@@ -392,6 +392,16 @@ def run(check):
         jsguards.run(check, c, R6, main, sm, st, sm.const_string("SOURCE_MAP_INLINE_LINE_START"))
 
     check.guarded(R6, guards)
+
+    R7 = "MAP-TABLE"
+    check.rule(R7, "js/source-map/node_source_map.js (vendored reader): a stored segment is [generated line, generated column, source, original line, original column, name] with the five VLQ fields decoded in format order and accumulated; `;` advances the line and resets the column; findEntry reads original source / line / column from slots 2 / 3 / 4, returns the keys the glue destructures, and searches by halving on a lexicographic (line, column) comparison, keeping the left half iff the position is before the probe")
+
+    def table(c):
+        from .. import jsguards
+        nsm = jsast.JsFile(prog.js, "js/source-map/node_source_map.js")
+        jsguards.rule_map_table(c, R7, nsm, sm)
+
+    check.guarded(R7, table)
     return {
         "explanation": "Rules over the ESTree of the three JS files (parsed with the repository's own swc parser; nothing is executed): constants and status literals against the Rust side, every structural path of CacheRewriter.rewrite must update the cache entry of the file it rewrote, who writes the cache, index arithmetic of the lookup, pass-through and try/catch wrappers, and the wiring of the stack-trace wrapper.",
         "assumptions": ["node_source_map.js (vendored Node source-map implementation) findEntry semantics", "V8 CallSite API"],
